@@ -1,0 +1,70 @@
+//go:build verif
+
+// Contracts checked by /verif (govc). Comments only; not part of any normal build.
+
+package smpp
+
+// ---------------------------------------------------------------- optional parameters (TLV), C16
+
+//@ func NewTLV
+//@   props C16
+//@   ensures [C16 tag] result.tag == tag
+//@   ensures [C16 length] int(result.length) == len(value) % 65536
+//@   ensures [C16 value] content(result.value) == content(value)
+
+//@ func (t TLV) Bytes
+//@   props C16,C03
+//@   ensures [C16 len] len(result) == int(t.length) + 4
+//@   ensures [C16 image.exact] int(t.length) == len(t.value) ==> result == cat(be16(int(t.tag)), be16(int(t.length)), content(t.value))
+//@   ensures [C16 image.truncated] int(t.length) < len(t.value) ==> result == cat(be16(int(t.tag)), be16(int(t.length)), take(content(t.value), int(t.length)))
+//@   ensures [C16 image.padded] int(t.length) > len(t.value) ==> result == cat(be16(int(t.tag)), be16(int(t.length)), content(t.value), zeros(int(t.length) - len(t.value)))
+//@   ensures [C12 fresh] fresh(result)
+//@   option alloc = int(t.length) + 4
+
+//@ func (t TLV) IsEmpty
+//@   props C16
+//@   ensures result <==> (t.tag == 0 && t.length == 0 && len(t.value) == 0)
+
+//@ func (t TLVs) Bytes
+//@   props C16,C03
+//@   ensures [C16,C01,C02 image] isperm(rangeord, t) && result == tlvser(t, rangeord, 0, len(t))
+//@   loop 1
+//@     invariant 0 <= rangepos && rangepos <= len(t)
+//@     invariant content(b) == tlvser(t, rangeord, 0, rangepos)
+//@     decreases len(t) - rangepos
+
+//@ func (t *TLVs) SetTLV
+//@   props C16
+//@   requires t != nil
+//@   modifies t
+//@   ensures [C16 set] mapdom(t, tlv.tag)
+
+// ReadTLVs1: default behaviour = arbitrary input (safety, termination, well-formed result);
+// behaviour `ser` = the input is the serialisation, in any order, of a well-formed parameter set.
+
+//@ func ReadTLVs1
+//@   props C16,C03
+//@   requires packet.rinv(r)
+//@   modifies r.buffer.unread, r.opError
+//@   ensures packet.rinv(r)
+//@   ensures [C16,C11 wf] tlvwf(result)
+//@   ensures [C03 consumed] len(packet.rem(r)) <= old(len(packet.rem(r)))
+//@   ensures [C03 sticky] old(packet.rfailed(r)) ==> packet.rfailed(r)
+//@   ensures [C03 alloc] alloc <= old(alloc) + 25 * (old(len(packet.rem(r))) - len(packet.rem(r))) + 65536 + 256
+//@   option alloc = 25 * len(packet.rem(r)) + 65536 + 256
+//@   behavior ser props=C16,C01,C02
+//@   ghost M TLVs, ord Ord
+//@   requires !packet.rfailed(r)
+//@   requires isperm(ord, M) && tlvwf(M) && packet.rem(r) == tlvser(M, ord, 0, len(M))
+//@   ensures [C16,C01,C02 parsed] !packet.rfailed(r) && mapeq(result, M)
+//@   loop 1
+//@     invariant packet.rinv(r)
+//@     invariant tlvwf(tlvs)
+//@     invariant len(packet.rem(r)) <= entry(len(packet.rem(r)))
+//@     invariant entry(packet.rfailed(r)) ==> packet.rfailed(r)
+//@     invariant alloc <= entry(alloc) + 25 * (entry(len(packet.rem(r))) - len(packet.rem(r)))
+//@     invariant @ser 0 <= iter && iter <= len(M) && !packet.rfailed(r) && packet.rem(r) == tlvser(M, ord, iter, len(M))
+//@     invariant @ser len(tlvs) == iter
+//@     invariant @ser forall k int :: mapdom(tlvs, k) <==> (mapdom(M, k) && ordinv(ord, k) < iter)
+//@     invariant @ser forall k int :: mapdom(tlvs, k) ==> tlvs[k].tag == M[k].tag && tlvs[k].length == M[k].length && content(tlvs[k].value) == content(M[k].value)
+//@     decreases len(packet.rem(r))
